@@ -17,7 +17,7 @@
 # 51 Franklin Street, Fifth Floor, Boston, MA 02110-1301 USA.
 #
 from miasmx.tools.modint import uint8, uint16, uint32, uint64, uint128
-from miasmx.expression.expression import ExprInt, ExprInt32, ExprInt64, \
+from miasmx.expression.expression import ExprInt, ExprInt16, ExprInt32, ExprInt64, \
     ExprId, ExprOp, ExprAff, ExprCond, ExprMem, ExprCompose, ExprSlice, \
     ExprInt_from
 from miasmx.arch.ia32_reg import x86_afs
@@ -1221,7 +1221,7 @@ def popfw(info):
 def pushad(info):
     e = []
     opmode, admode = info.opmode, info.admode
-    if opmode == u16:
+    if opmode == x86_afs.u16:
         s = 16
         regs = [eax[:16], ecx[:16], edx[:16], ebx[:16],
                 esp[:16], ebp[:16], esi[:16], edi[:16]]
@@ -1237,7 +1237,7 @@ def pushad(info):
 def popad(info):
     e = []
     opmode, admode = info.opmode, info.admode
-    if opmode == u16:
+    if opmode == x86_afs.u16:
         s = 16
         myesp = esp[:16]
         regs = [eax[:16], ecx[:16], edx[:16], ebx[:16],
